@@ -229,8 +229,8 @@ func c13Run(r *vkit.Run) {
 	// (b) all binary trees with <= K operators, printed with minimal and with redundant parentheses
 	K := 3
 	opset := c13Ops
-	if !r.Thorough() {
-		opset = []string{"+", "-", "*", "/", "^", ">", "and", "or", "unless"}
+	if r.Thorough() {
+		K = 4
 	}
 	leaf := 0
 	vals := []float64{7, 3, 2, 5, 11}
